@@ -8,6 +8,7 @@ import Replicon.Model.Server
 import Replicon.Model.Client
 import Replicon.Model.Events
 import Replicon.Model.Receive
+import Replicon.Model.Joint
 /-
 Trace checker for replication system traces (`/verif/harness/src/sys.rs`).
 
@@ -135,6 +136,9 @@ structure State where
   mutDelivered : List (Nat × Nat) := []                 -- (client, index) of mutate messages delivered to the client, this session
   lastUpdSent : List (Nat × Nat) := []                  -- client ↦ tick of the last update message sent to it this session
   required : List ((Nat × Nat) × Nat) := []             -- (client, id) ↦ that tick when the event was sent
+  updSentCount : List (Nat × Nat) := []                 -- client ↦ update messages sent to it this session
+  updGotCount : List (Nat × Nat) := []                  -- client ↦ update messages delivered to it this session
+  requiredCount : List ((Nat × Nat) × Nat) := []        -- (client, id) ↦ update messages sent to the client before the event
   sessionStart : List (Nat × Nat) := []                 -- client ↦ op index of its connect
   firstFrame : List Nat := []                           -- clients that ran a frame in their session
   sessionBroken : List Nat := []                        -- clients whose session ended at some point
@@ -145,6 +149,8 @@ structure State where
   lastConnect : List (Nat × Nat) := []                  -- client ↦ op index of its latest connect
   -- lock step with `Model/Events.lean`
   srvEv : Evt.SrvEv := {}
+  /-- the server model as it was before the current server frame (input of `Joint.frame`) -/
+  srvBefore : Srv.Server := {}
   evLastRunning : Bool := false
   evEmitted : List Evt.Emitted := []
   evRefs : List (Nat × List Nat) := []                   -- event id ↦ referenced entities (bits)
@@ -380,7 +386,10 @@ partial def groupOf (ents : List SEnt) (i : Nat) : List Nat := Id.run do
     for e in marked do
       match e.parent with
       | some p =>
-        if marked.any (·.idx = p) then
+        -- an edge needs a replicated source; its target only has to exist (`add_relation`,
+        -- `start_replication` and `stop_replication` all filter on the source's marker), so an
+        -- unreplicated entity in the middle of a hierarchy still connects its replicated neighbours
+        if ents.any (·.idx = p) then
           if grp.contains e.idx && !grp.contains p then grp := p :: grp; changed := true
           if grp.contains p && !grp.contains e.idx then grp := e.idx :: grp; changed := true
       | none => pure ()
@@ -476,6 +485,11 @@ def checkFrame (st : State) (snap : Snap) (fm : FrameMsgs) (ticked : Bool) : Lis
           | none => parts := parts ++ [(sz, grp)]
         return parts.map (·.1)
       let splitHdr := if st.track then hdr + 9 else hdr
+      -- With relation graphs registered, a graph without mutations in this tick is an empty
+      -- chunk of the real loop; when `can_pack` refuses it (message size a multiple of the maximum,
+      -- e.g. maximum 1) it becomes a message without entities.  Chunks are reconstructed here
+      -- from the messages' contents, so such messages are not part of the comparison.
+      let realParts := if st.sync && !st.track then realParts.filter (· ≠ []) else realParts
       if maxSize > 0 then
         let model := Packing.split splitHdr maxSize realParts.flatten st.track
         if model ≠ realParts then
@@ -688,6 +702,7 @@ def modelStep (st : State) (inp : List String) (obs : List String) : State × Li
     let ms := ((rest.getD 1 "").drop 3).toString.toNat?.getD 10
     match obs.getLast?.map toks with
     | some ("srv" :: ts) =>
+      let st := { st with srvBefore := m }
       let fm := decodeFrame st obs
       let (m1, ran, outs) := m.frameBegin ticked ms
       let realRan : Bool := kv ts "repl" == some "1"
@@ -914,12 +929,21 @@ def evtStep (st : State) (inp : List String) (obs : List String) : State × List
     | ["connect", c] => if ok then (match c.toNat? with
         | some c => { st with sessionStart := (c, st.ops) :: st.sessionStart.filter (·.1 ≠ c), firstFrame := st.firstFrame.filter (· ≠ c),
                               lastConnect := (c, st.ops) :: st.lastConnect.filter (·.1 ≠ c),
-                              lastUpdSent := st.lastUpdSent.filter (·.1 ≠ c) }
+                              lastUpdSent := st.lastUpdSent.filter (·.1 ≠ c),
+                              updSentCount := st.updSentCount.filter (·.1 ≠ c), updGotCount := st.updGotCount.filter (·.1 ≠ c) }
         | none => st) else st
     | ["disconnect", c] => if ok then (match c.toNat? with
         | some c => { st with sessionStart := st.sessionStart.filter (·.1 ≠ c), sessionBroken := c :: st.sessionBroken }
         | none => st) else st
     | ["stop"] => if ok then { st with sessionBroken := st.sessionStart.map (·.1) ++ st.sessionBroken, sessionStart := [], srvStops := st.srvStops + 1 } else st
+    | "sframe" :: _ =>
+      -- sessions the server ended itself (DisconnectRequest)
+      (discsOf obs).foldl (fun (st : State) d => match d with
+        | some c => { st with sessionStart := st.sessionStart.filter (·.1 ≠ c), sessionBroken := c :: st.sessionBroken }
+        | none => st) st
+    | ["deliver", c, "s2c", "0", _] => if ok then (match c.toNat? with
+        | some c => { st with updGotCount := (c, (st.updGotCount.lookup c).getD 0 + 1) :: st.updGotCount.filter (·.1 ≠ c) }
+        | none => st) else st
     | _ => st
   match inp with
   | "sev" :: kind :: id :: mode :: rest =>
@@ -957,7 +981,8 @@ def evtStep (st : State) (inp : List String) (obs : List String) : State × List
         if ts.head? ≠ some "sent" then st else
         match kvNat ts "c", kvNat ts "ch", kvHex ts "hex" with
         | some c, some 0, some bs => (match decodeUpdate bs with
-          | .ok u => { st with lastUpdSent := (c, u.tick) :: st.lastUpdSent.filter (·.1 ≠ c) }
+          | .ok u => { st with lastUpdSent := (c, u.tick) :: st.lastUpdSent.filter (·.1 ≠ c),
+                               updSentCount := (c, (st.updSentCount.lookup c).getD 0 + 1) :: st.updSentCount.filter (·.1 ≠ c) }
           | _ => st)
         | _, _, _ => st) st
     let (st, vSent) : State × List Verdict :=
@@ -971,7 +996,8 @@ def evtStep (st : State) (inp : List String) (obs : List String) : State × List
           | some (stamp, id) =>
             let st' := match stamp with
               | some s => { acc.1 with stamps := ((c, id), s) :: acc.1.stamps,
-                                       required := ((c, id), (acc.1.lastUpdSent.lookup c).getD 0) :: acc.1.required }
+                                       required := ((c, id), (acc.1.lastUpdSent.lookup c).getD 0) :: acc.1.required,
+                                       requiredCount := ((c, id), (acc.1.updSentCount.lookup c).getD 0) :: acc.1.requiredCount }
               | none => acc.1
             -- the stamp is the client's update tick as the server model has it after this run
             let vStamp := if acc.1.modelOff then [] else match stamp, (st0.srv.clients.lookup c) with
@@ -980,11 +1006,18 @@ def evtStep (st : State) (inp : List String) (obs : List String) : State × List
                       [Verdict.mismatch "C04" s!"event {id} for client {c} is stamped {s}, the server model has update tick {cl.updateTick} for it"]
                   | none => [])
               | _, _ => []
+            -- the implementation-level counterpart of `Joint.StampsOk` (C04_history): the stamp is
+            -- the tick of the last update message sent to that client in its session
+            let vGhost := match stamp with
+              | some s => let lu := (acc.1.lastUpdSent.lookup c).getD 0
+                if s = lu then [] else
+                  [Verdict.oracle "C04" s!"event {id} for client {c} is stamped {s}, but the last update message sent to that client in this session has tick {lu}"]
+              | none => []
             -- non-independent events never go to clients without authorization
             let vAuth := if acc.1.modelOff then [] else match stamp, (acc.1.srv.clients.lookup c) with
               | some _, some cl => if cl.authorized then [] else [Verdict.oracle "C07" s!"non-independent event {id} sent to unauthorized client {c}"]
               | _, _ => []
-            (st', acc.2 ++ vStamp ++ vAuth)
+            (st', acc.2 ++ vStamp ++ vGhost ++ vAuth)
           | none => acc
         | _, _, _ => acc) (st, [])
     -- deliveries observed by game logic
@@ -1048,6 +1081,14 @@ def evtStep (st : State) (inp : List String) (obs : List String) : State × List
                         | some req, some u => if req ≤ u then [] else
                             [Verdict.oracle "C04" s!"event {id} is handed to client {c} at update tick {u}, but the server had sent it an update message of tick {req} before it sent the event: the event outran that replication"]
                         | _, _ => []) ++
+                      (if kind = "ind" then [] else
+                        match st.requiredCount.lookup (c, id) with
+                        | some n => let got := (st.updGotCount.lookup c).getD 0
+                          if n ≤ got then [] else
+                            -- known finding F20: the only update message it outran is the one of tick 0
+                            let tag := if st.stamps.lookup (c, id) = some 0 && st.required.lookup (c, id) = some 0 && upd = some 0 then "[F20] " else ""
+                            [Verdict.oracle "C04" s!"{tag}event {id} is handed to client {c} after {got} update messages of this session, but {n} had been sent to it before the event: the event outran replication (stamp {st.stamps.lookup (c, id)}, update tick {upd})"]
+                        | none => []) ++
                       (if kind = "map" || kind = "trig" then
                         (if tgt = ev.target.map (fun t => s!"@{t}") then [] else
                           [Verdict.oracle "C04" s!"event {id}: entity reference resolves to {tgt} on client {c}, sent for entity {ev.target}"])
@@ -1257,6 +1298,14 @@ def evtLock (st : State) (inp : List String) (obs : List String) : State × List
         let e := (expected.filter (·.1 = k)).map (·.2)
         if a = e then none else
           some (Verdict.mismatch "EVT" s!"server frame, client {k.1} channel {k.2}: the implementation sends events (id@stamp) {showOuts a}, the model {showOuts e}")
+      -- The theorems about histories (C04_history, C05_history_*) are about `Joint.frame`: the
+      -- composition used above (clear on a stop, the run's client ticks as peers, flush iff the
+      -- run happened) must be that function's.
+      let ms := (((inp.getD 2 "").drop 3).toString.toNat?).getD 10
+      let jr := Joint.frame { srv := st.srvBefore, ev := st.srvEv, pending := st.evEmitted } (inp.getD 1 "" == "tick=1") ms (fun _ => [])
+      let vJoint := if jr.1.ev == s1 && jr.2.2 == outs then [] else
+        [Verdict.mismatch "EVT" s!"the driver's composition of the event systems differs from Joint.frame: events {showOuts (outs.map fun o => (o.stamp, o.id))} vs {showOuts (jr.2.2.map fun o => (o.stamp, o.id))}"]
+      let vs := vs ++ vJoint
       let st := { st with srvEv := s1, evEmitted := [], evLastRunning := running }
       -- the server app's own client-event buffer (singleplayer / listen server path)
       let (st, v4) := if st.dedicated then (st, []) else
@@ -1706,8 +1755,9 @@ def handle (st : State) (inp : List String) (obs : List String) : State × List 
   let (st, v10) := sessionOracle st inp obs
   let (st, v2) := handleOracles st inp obs
   -- C06: after injected bytes the server must keep serving the other clients correctly
-  let v7 := if !st.junkCase then [] else (v2 ++ v1 ++ v3).filterMap fun v => match v with
-    | .oracle p d => if (p = "C01" || p = "C02" || p = "C03") && !(d.splitOn "[F").length > 1 then
+  let v7 := if !st.junkCase then [] else (v2 ++ v1 ++ v3 ++ v4).filterMap fun v => match v with
+    | .oracle p d => if (p = "C01" || p = "C02" || p = "C03" || p = "C05") && !(d.splitOn "[F").length > 1
+                         && !(d.splitOn "client 0").length > 1 then
         some (Verdict.oracle "C06" s!"after injected bytes: {d}") else none
     | .mismatch p d => if p = "SRV" || p = "CLI" then some (Verdict.mismatch "C06" s!"after injected bytes: {d}") else none
     | _ => none
